@@ -363,8 +363,45 @@ pub fn gen_wire_plan(prop: Prop, seed: u64, tier: Tier) -> WirePlan {
             conformant: conformant_others && !abuser,
             window: *rng.pick(&[1usize, 1, 2, 4, 0]),
             garbage: gb,
+            start_after: 0,
             script,
         });
+    }
+
+    // Connection churn (a fifth of the C09 runs, fewer elsewhere): short-lived connections and
+    // late joiners, so that connection ids are released out of order and handed out again.
+    let mut crng = Rng::new(seed ^ 0x6368_7572_6e21);
+    let churn = match prop {
+        Prop::C09 => crng.chance(1, 5),
+        Prop::C03 | Prop::C11 => crng.chance(1, 12),
+        _ => false,
+    };
+    if churn {
+        for a in actors.iter_mut().skip(1) {
+            if !a.script.is_empty() && !a.abuser && crng.chance(2, 3) {
+                let keep = crng.range(1, 5).min(a.script.len());
+                a.script.truncate(keep);
+                a.script.retain(|op| !op.k.is_ending());
+                a.script.push(Op::new(*crng.pick(&ENDINGS), 0, 0, 0, 0));
+            }
+        }
+        for j in 0..crng.range(2, 3) {
+            let (_, minor, _) = pick_version(&mut crng);
+            let mut script = gen_script(&mut crng, &prof, minor.max(14), false, conformant_others, false);
+            script.truncate(crng.range(2, 8).min(script.len()));
+            actors.push(ActorPlan {
+                major: 1,
+                minor: minor.max(14),
+                legacy: false,
+                capacity: pick_capacity(&mut crng),
+                abuser: false,
+                conformant: conformant_others,
+                window: *crng.pick(&[1usize, 2, 0]),
+                garbage: false,
+                start_after: 1 + (j as u32 + crng.below(2) as u32) / 2,
+                script,
+            });
+        }
     }
 
     if prop == Prop::C11 {
@@ -384,6 +421,7 @@ pub fn gen_wire_plan(prop: Prop, seed: u64, tier: Tier) -> WirePlan {
             conformant: true,
             window: 1,
             garbage: false,
+            start_after: 0,
             script,
         });
     }
